@@ -1,0 +1,76 @@
+//go:build verif
+
+// Verification hooks for property C18 (settings read back as set): thin
+// exported wrappers around the unexported generic copy helpers, the formula
+// escapers, the legacy password hash, and dumpers for the two protection
+// records that have no public getter. Compiled only with `-tags verif`; it adds
+// code and changes none.
+
+package excelize
+
+import (
+	"fmt"
+	"reflect"
+	"strings"
+)
+
+// VerifC18SetNoPtrFieldsVal exposes setNoPtrFieldsVal: opts is a struct value,
+// part a pointer to a struct.
+func VerifC18SetNoPtrFieldsVal(fields []string, opts, part interface{}) {
+	setNoPtrFieldsVal(fields, reflect.ValueOf(opts), reflect.ValueOf(part).Elem())
+}
+
+// VerifC18SetPtrFieldsVal exposes setPtrFieldsVal: part is a struct value,
+// opts a pointer to a struct.
+func VerifC18SetPtrFieldsVal(fields []string, part, opts interface{}) {
+	setPtrFieldsVal(fields, reflect.ValueOf(part), reflect.ValueOf(opts).Elem())
+}
+
+// VerifC18FormulaEscape exposes formulaEscaper.
+func VerifC18FormulaEscape(s string) string { return formulaEscaper.Replace(s) }
+
+// VerifC18FormulaUnescape exposes formulaUnescaper.
+func VerifC18FormulaUnescape(s string) string { return formulaUnescaper.Replace(s) }
+
+// VerifC18UnescapeDataValidationFormula exposes unescapeDataValidationFormula.
+func VerifC18UnescapeDataValidationFormula(s string) string {
+	return unescapeDataValidationFormula(s)
+}
+
+// VerifC18GenSheetPasswd exposes genSheetPasswd.
+func VerifC18GenSheetPasswd(s string) string { return genSheetPasswd(s) }
+
+// VerifC18SheetProtection dumps the stored sheet protection record ("none" when absent).
+func VerifC18SheetProtection(f *File, sheet string) string {
+	ws, err := f.workSheetReader(sheet)
+	if err != nil {
+		return "ERR"
+	}
+	p := ws.SheetProtection
+	if p == nil {
+		return "none"
+	}
+	var sb strings.Builder
+	fmt.Fprintf(&sb, "alg=%q pw=%q hash=%d salt=%d spin=%d", p.AlgorithmName, p.Password, len(p.HashValue), len(p.SaltValue), p.SpinCount)
+	v := reflect.ValueOf(*p)
+	for i := 0; i < v.NumField(); i++ {
+		if v.Field(i).Kind() == reflect.Bool {
+			fmt.Fprintf(&sb, " %s=%v", v.Type().Field(i).Name, v.Field(i).Bool())
+		}
+	}
+	return sb.String()
+}
+
+// VerifC18WorkbookProtection dumps the stored workbook protection record ("none" when absent).
+func VerifC18WorkbookProtection(f *File) string {
+	wb, err := f.workbookReader()
+	if err != nil {
+		return "ERR"
+	}
+	p := wb.WorkbookProtection
+	if p == nil {
+		return "none"
+	}
+	return fmt.Sprintf("alg=%q hash=%d salt=%d spin=%d LockStructure=%v LockWindows=%v", p.WorkbookAlgorithmName,
+		len(p.WorkbookHashValue), len(p.WorkbookSaltValue), p.WorkbookSpinCount, p.LockStructure, p.LockWindows)
+}
